@@ -293,7 +293,11 @@ struct Sim {
 }
 
 fn open_comp(store: &Arc<FaultyStore<CompressionDatabase>>) -> CompDb {
-    <CompDb>::new(store.clone())
+    // opening reads the metadata: the harness's own reads are not subject to injected faults
+    let armed = std::mem::take(&mut *store.plan.lock().unwrap());
+    let db = <CompDb>::new(store.clone());
+    *store.plan.lock().unwrap() = armed;
+    db
 }
 
 pub async fn world(ctx: &mut Ctx) {
